@@ -26,6 +26,7 @@ func isTypeExpr(fi *FuncInfo) func(ast.Expr) bool {
 
 func checkC01(c *Ctx, r *Report) {
 	defer checkArtifactWrites(c, r, "C01.c", "generator/swagen.GenerateAndOutputSpec")
+	defer checkHolderDispatch(c, r, "C01.d")
 	defer checkGraphMutationSites(c, r, "C01.a")
 	w := c.W
 	r.NotDecided = append(r.NotDecided,
